@@ -148,6 +148,13 @@ type executorOutcome struct {
 	endedByHorizon  bool
 	returnedAtStart bool // Execute returned before ever calling the runner
 	spun            bool // more than baseTimerLimit base timers were armed
+
+	// wired mode: what went wrong with the decorated calls ("" = nothing).
+	wiredFailure string
+	// Probe context created on the clock after the horizon (every stall has
+	// ended by then): the unsuspended duration it reported when it ended.
+	probeValue any
+	probeWant  time.Duration
 }
 
 func runExecutorTimeline(t *testing.T, tl *timeline, exitCode int32) (out executorOutcome, failure string) {
@@ -182,6 +189,10 @@ func runExecutorTimeline(t *testing.T, tl *timeline, exitCode int32) (out execut
 		updates := make(chan *remoteworker.CurrentState_Executing)
 		done := make(chan struct{})
 		exited := false
+		var wired *wiredRig
+		if tl.Stalls == "wired" {
+			wired = newWiredRig(tl, clk)
+		}
 
 		for _, ev := range tl.Events {
 			if delta := start.Add(time.Duration(ev.T) * unit).Sub(time.Now()); delta > 0 {
@@ -192,9 +203,25 @@ func runExecutorTimeline(t *testing.T, tl *timeline, exitCode int32) (out execut
 			}
 			switch ev.Kind {
 			case "suspend":
-				clk.Suspend()
+				if wired != nil {
+					// A real call through a suspending decorator, which
+					// stalls in the parked backend.
+					wired.begin(ev.Reader)
+					synctest.Wait()
+				} else {
+					clk.Suspend()
+				}
 			case "resume":
-				clk.Resume()
+				if wired != nil {
+					// The backend answers; the reader finishes the buffer.
+					wired.end(ev.Reader)
+					synctest.Wait()
+				} else {
+					clk.Resume()
+				}
+			case "outer_cancel":
+				// The worker cancels the context it handed to Execute().
+				outerCancel()
 			case "create":
 				go func() {
 					for range updates {
@@ -232,6 +259,20 @@ func runExecutorTimeline(t *testing.T, tl *timeline, exitCode int32) (out execut
 		}
 		outerCancel()
 		<-done
+		if wired != nil {
+			wired.teardown()
+			synctest.Wait()
+			out.wiredFailure = wired.check(start)
+		}
+		// Every stall has ended: the clock must be running again, so a
+		// context created now is unsuspended for all of its life. (Its
+		// timeout th+1 is more than the threshold, so that a clock that is
+		// still suspended cannot pass for one that ran.)
+		out.probeWant = time.Duration(tl.Th+1) * unit
+		probeCtx, probeCancel := clk.NewContextWithTimeout(context.Background(), out.probeWant)
+		<-probeCtx.Done()
+		out.probeValue = probeCtx.Value(re_clock.UnsuspendedDurationKey{})
+		probeCancel()
 		synctest.Wait()
 	})
 	return out, ""
@@ -253,8 +294,14 @@ func checkExecutor(tl *timeline, out executorOutcome, exitCode int32) (string, i
 	if !onGrid {
 		return fmt.Sprintf("command ended at off-grid instant %v", r.endedAt.Sub(out.start)), -1
 	}
-	if l := latestAllowed(tl); x > l {
-		return fmt.Sprintf("command ended at %d, later than allowed %d = min(budget used up %d, hard bound %d, finish %d)", x, l, tl.budgetReached(), tl.Create+tl.D+tl.M, tl.Finish), x
+	// The outer cancellation reaches the command at c (-1: there is none).
+	c := tl.cancelAt()
+	l := latestAllowed(tl)
+	if c >= 0 && c < l {
+		l = c
+	}
+	if x > l {
+		return fmt.Sprintf("command ended at %d, later than allowed %d = min(budget used up %d, hard bound %d, finish %d, outer cancellation %d)", x, l, tl.budgetReached(), tl.Create+tl.D+tl.M, tl.Finish, c), x
 	}
 	resp := out.response
 	if resp == nil || resp.Result == nil || resp.Result.ExecutionMetadata == nil {
@@ -281,11 +328,19 @@ func checkExecutor(tl *timeline, out executorOutcome, exitCode int32) (string, i
 			return fmt.Sprintf("command was cancelled by the timeout at %d, but the response status is %v", x, st), x
 		}
 	case r.ctxErr == context.Canceled:
-		if tl.Via != "ioerror" || x != tl.Finish {
-			return fmt.Sprintf("run context was cancelled at %d without a timeout or I/O error (finish=%d via %s)", x, tl.Finish, tl.Via), x
+		byIOError := tl.Via == "ioerror" && x == tl.Finish
+		byOuterCancel := c >= 0 && x == c
+		if !byIOError && !byOuterCancel {
+			return fmt.Sprintf("run context was cancelled at %d without a timeout, I/O error or outer cancellation (finish=%d via %s, outer cancellation %d)", x, tl.Finish, tl.Via, c), x
 		}
-		if st.Code() != codes.Internal || !strings.Contains(st.Message(), "I/O error while running command") {
-			return fmt.Sprintf("I/O error at %d, but the response status is %v", x, st), x
+		// An I/O error is reported as such; a cancellation by the worker
+		// is what the runner's gRPC stub made of the cancelled context
+		// ("Failed to run command: ... context canceled", code CANCELLED).
+		// If both happen in the same instant either may win.
+		okIOError := st.Code() == codes.Internal && strings.Contains(st.Message(), "I/O error while running command")
+		okOuterCancel := st.Code() == codes.Canceled
+		if !(byIOError && okIOError) && !(byOuterCancel && okOuterCancel) {
+			return fmt.Sprintf("run context was cancelled at %d (I/O error=%v, outer cancellation=%v), but the response status is %v", x, byIOError, byOuterCancel, st), x
 		}
 	default:
 		return fmt.Sprintf("run context ended with %v", r.ctxErr), x
@@ -297,6 +352,9 @@ func checkExecutor(tl *timeline, out executorOutcome, exitCode int32) (string, i
 	if want := time.Duration(tl.unsuspended(x)) * unit; v.AsDuration() != want {
 		return fmt.Sprintf("virtual_execution_duration %v, model U(%d)=%v (status %v)", v.AsDuration(), x, want, st.Code()), x
 	}
+	if got, ok := out.probeValue.(time.Duration); !ok || got != out.probeWant {
+		return fmt.Sprintf("after the last stall had ended, a context with timeout %v created on the clock reported an unsuspended lifetime of %v: the clock is still suspended", out.probeWant, out.probeValue), x
+	}
 	return "", x
 }
 
@@ -307,12 +365,18 @@ func TestC11ExecutorTimeout(t *testing.T) {
 			"generated), until an I/O error is logged through the installed hook, or until its context ends (answers like a gRPC stub); "+
 			"oracle: command ends no later than min(U reaches d, create+d+m, finish); timeout only if d-th < U <= d or at the hard bound and "+
 			"then status DEADLINE_EXCEEDED; own exit => OK + exit code; I/O error => that error; virtual_execution_duration == model U(end). "+
+			"In about 4 of 7 cases the context handed to Execute() is cancelled at a generated tick (before/at creation of the run context, around the "+
+			"earliest instant the timeout may fire, around budget/hard bound/finish, anywhere): the command then ends no later than that tick, and if "+
+			"the run context ends with Canceled at that tick the status is CANCELLED, so a cancellation strictly before the timeout may fire is never "+
+			"reported as DEADLINE_EXCEEDED; in the same instant either is accepted. After the horizon a probe context on the clock must report a fully "+
+			"unsuspended lifetime. "+
 			"NON-TRIVIAL as in sub-check timeline")
 	rapid.Check(t, func(rt *rapid.T) {
 		tl := genTimeline(rt)
 		tl.Objects = "executor"
 		tl.Via = rapid.SampledFrom([]string{"exit", "exit", "ioerror"}).Draw(rt, "executorVia")
 		exitCode := int32(rapid.IntRange(0, 3).Draw(rt, "exitCode"))
+		genOuterCancel(rt, tl)
 		out, failure := runExecutorTimeline(t, tl, exitCode)
 		if failure != "" {
 			rt.Fatalf("%s; script=%s", failure, tl)
@@ -325,6 +389,7 @@ func TestC11ExecutorTimeout(t *testing.T) {
 			rt.Fatalf("executor: %s; response=%v; script=%s", msg, out.response, tl)
 		}
 		labels, nontrivial := classify(tl, x)
+		labels = relabelCancelled(labels, classifyCancel(tl, out, x))
 		labels = append(labels, "via:"+tl.Via, "status:"+status.FromProto(out.response.Status).Code().String())
 		rec.Case(tl, nontrivial, labels...)
 	})
